@@ -62,6 +62,25 @@ pub fn index_voice(bytes: &[u8]) -> Option<VoiceIndex> {
     Some(VoiceIndex { data_start, lines, markers, ranges, numbers })
 }
 
+/// Text spans of a voice file: the header (up to the first data byte) and every tree / window block.
+pub fn text_spans(bytes: &[u8], idx: &VoiceIndex) -> Vec<(&'static str, usize, usize)> {
+    let mut spans = vec![("header", 0, idx.data_start.min(bytes.len()))];
+    for (k, a, b) in &idx.ranges {
+        if k.contains("TREE") || k.contains("WIN") {
+            let s = idx.data_start.saturating_add(*a).min(bytes.len());
+            let e = idx.data_start.saturating_add(*b).saturating_add(1).min(bytes.len());
+            if s < e {
+                spans.push((if k.contains("TREE") { "tree" } else { "window" }, s, e));
+            }
+        }
+    }
+    spans
+}
+
+/// Characters with a structural meaning somewhere in the format, used for single-character
+/// substitutions (a one-bit error often turns a letter into one of them: '_'^2 = ']', 'M'^16 = ']').
+pub const STRUCTURAL_CHARS: &[u8] = b"[]:=,-\n\"{}*? 0.";
+
 pub const NUMBER_REPLACEMENTS: &[&str] = &[
     "0", "1", "+1", "-1", "4294967296", "18446744073709551615", "18446744073709551616", "-1", "abc", "99999999999999999999999999", "",
     // valid UTF-8, not ASCII: full-width digits (Japanese IME), superscript, digit + multi-byte tail
